@@ -618,6 +618,11 @@ class Interp:
         if k == "discr":
             cell, path = self.resolve(frame, rv[1])
             v = self.read(cell, path)
+            for _ in range(3):             # a place reached through `*box` may still hold the Box wrapper
+                if type(v) is Agg and v.ty in ("Box", "Unique", "NonNull"):
+                    u = unwrap_ptr(v)
+                    if type(u) is Ptr: v = self.read(u.cell, u.path); continue
+                break
             if type(v) is Enum:
                 if v.ty == "Ordering" and v.var in ORDERING_DISCR: return ORDERING_DISCR[v.var] & 0xFF
                 return v.idx
